@@ -13,6 +13,7 @@
 package main
 
 import (
+	"bytes"
 	"context"
 	"encoding/binary"
 	"encoding/json"
@@ -89,8 +90,13 @@ type scenario struct {
 	lines []string
 }
 
-func genScenario(r *hx.Rng, name string, thorough bool) scenario {
+func genScenario(r *hx.Rng, name string, thorough bool, search bool) scenario {
 	sc := scenario{name: name}
+	// fork configuration: a share of the sessions runs before Proposal008 (no executed-transaction check in verifyBlock)
+	p008 := !r.Chance(1, 4)
+	if !p008 {
+		sc.lines = append(sc.lines, "cfg p008 0")
+	}
 	ntx := 2 + r.Intn(5)
 	for i := 0; i < ntx; i++ {
 		sc.lines = append(sc.lines, fmt.Sprintf("tx t%d", i))
@@ -118,6 +124,10 @@ func genScenario(r *hx.Rng, name string, thorough bool) scenario {
 			}
 		}
 		return false
+	}
+	bigSkipAt := 0
+	if r.Chance(1, 10) {
+		bigSkipAt = 1 + r.Intn(maxBlocks)
 	}
 	eqTarget := map[int]int{} // block -> block on another branch below the same parent with the same cumulative QN
 	// 0 chainy, 1 bushy, 2 two long forks, 3 random, 4/5 ladder: one main chain, forks off every rung,
@@ -172,7 +182,13 @@ func genScenario(r *hx.Rng, name string, thorough bool) scenario {
 		if r.Chance(1, skipDen) {
 			h += 1 + r.Intn(2)
 		}
+		if bigSkipAt == i {
+			h = par.height + 95 + r.Intn(10) // boundary: around the topBlocks capacity / buildCache window (100)
+		}
 		qn := r.Pick(1, 1, 1, 2, 2, 3)
+		if r.Chance(1, 12) {
+			qn = 0 // boundary: a block that adds no weight (equal cumulative QN with its parent)
+		}
 		pvLo, pvHi := 0, 0
 		// forks: aim at EQUAL cumulative QN with a block on another branch below the same parent, the
 		// tip sitting at, above or below that block's height, so that the tie-break at the fork point decides
@@ -235,7 +251,7 @@ func genScenario(r *hx.Rng, name string, thorough bool) scenario {
 		nt := r.Pick(0, 0, 1, 1, 2)
 		for j := 0; j < nt; j++ {
 			t := r.Intn(ntx)
-			if used[t] && !r.Chance(1, 8) { // mostly fresh on this branch; siblings may share
+			if used[t] && (!p008 || !r.Chance(1, 8)) { // mostly fresh on this branch (always, before Proposal008: such a block is invalid and nothing rejects it); siblings may share
 				continue
 			}
 			dup := false
@@ -340,6 +356,14 @@ func genScenario(r *hx.Rng, name string, thorough bool) scenario {
 		if r.Chance(1, 10) {
 			sc.lines = append(sc.lines, fmt.Sprintf("pool t%d", r.Intn(ntx)))
 		}
+	}
+	if search && r.Chance(1, 3) {
+		// concurrency evidence: everything again, from several goroutines at once
+		var ls []string
+		for _, b := range order {
+			ls = append(ls, fmt.Sprintf("b%d", b))
+		}
+		sc.lines = append(sc.lines, "par "+strings.Join(ls, ","))
 	}
 	// second pass: re-deliver everything (blocks rejected earlier may now win or be duplicates)
 	if r.Chance(1, 2) || shape == 6 {
@@ -493,25 +517,29 @@ type blockInfo struct {
 	flag     string
 	block    *types.Block
 	goodRoot common.Hash
+	lastCopy *types.Block
 }
 
 type child struct {
-	out     *hx.Out
-	blocks  map[string]*blockInfo // by label
-	byHash  map[common.Hash]*blockInfo
-	order   []string // labels in declaration order
-	txs     map[string]*types.Transaction
-	txOrder []string
-	txByH   map[common.Hash]string
-	maxH    uint64
-	sdb     account.AccountDatabase
-	dead    bool // process death simulated, must restart before anything else
-	viol    []map[string]string
-	name    string
-	script  []string // executed op lines so far
-	scnText string   // the scenario as given (re-runnable with scn=<file>)
-	monitor bool
-	genesis common.Hash
+	out      *hx.Out
+	blocks   map[string]*blockInfo // by label
+	byHash   map[common.Hash]*blockInfo
+	order    []string // labels in declaration order
+	txs      map[string]*types.Transaction
+	txOrder  []string
+	txByH    map[common.Hash]string
+	maxH     uint64
+	sdb      account.AccountDatabase
+	dead     bool // process death simulated, must restart before anything else
+	viol     []map[string]string
+	name     string
+	script   []string    // executed op lines so far
+	scnText  string      // the scenario as given (re-runnable with scn=<file>)
+	violPath string      // violations are appended here the moment they are found
+	handed   []handedOut // headers the chain handed out earlier (retention check)
+	search   bool
+	monitor  bool
+	genesis  common.Hash
 }
 
 var (
@@ -536,8 +564,16 @@ func bootChain() error {
 
 func (c *child) violation(key, desc string) {
 	if len(c.viol) < 20 {
-		c.viol = append(c.viol, map[string]string{"key": key, "desc": desc, "scenario": c.name,
-			"script": c.scnText})
+		v := map[string]string{"key": key, "desc": desc, "scenario": c.name, "script": c.scnText}
+		c.viol = append(c.viol, v)
+		// flushed when found: a child that hangs or dies later still reports it
+		if c.violPath != "" {
+			if f, err := os.OpenFile(c.violPath, os.O_APPEND|os.O_CREATE|os.O_WRONLY, 0644); err == nil {
+				j, _ := json.Marshal(v)
+				f.Write(append(j, '\n'))
+				f.Close()
+			}
+		}
 	}
 }
 
@@ -557,6 +593,33 @@ func resName(r types.AddBlockResult) string {
 		return "depgroup"
 	}
 	return "code" + strconv.Itoa(int(r))
+}
+
+// a header object the chain returned earlier, with its serialisation at that time
+type handedOut struct {
+	what string
+	ptr  *types.BlockHeader
+	raw  []byte
+}
+
+func (c *child) retain(what string, h *types.BlockHeader) {
+	if h == nil || len(c.handed) >= 64 {
+		return
+	}
+	raw, err := types.MarshalBlockHeader(h)
+	if err == nil {
+		c.handed = append(c.handed, handedOut{what, h, raw})
+	}
+}
+
+// retention phase: objects handed out by earlier calls must not change under later operations
+func (c *child) checkRetained(ctx string) {
+	for _, ho := range c.handed {
+		raw, err := types.MarshalBlockHeader(ho.ptr)
+		if err != nil || !bytes.Equal(raw, ho.raw) {
+			c.violation("handed-out-header-mutated", fmt.Sprintf("%s: a header returned earlier by %s was changed in place by a later operation", ctx, ho.what))
+		}
+	}
 }
 
 // guarded runs f with the gate armed; classifies the outcome.
@@ -717,6 +780,13 @@ func (c *child) checkInv(ctx string) {
 			c.violation("head-unreachable", fmt.Sprintf("%s: block %s on the parent path of the head is not in the hash index", ctx, c.labelOfHash(h.Bytes())))
 			break
 		}
+		if bi, ok := c.byHash[h]; ok {
+			rh := bi.block.Header
+			if b.Header.Height != rh.Height || b.Header.PreHash != rh.PreHash || b.Header.TotalQN != rh.TotalQN ||
+				b.Header.ProveValue.Cmp(rh.ProveValue) != 0 || b.Header.StateTree != rh.StateTree || len(b.Transactions) != len(bi.block.Transactions) {
+				c.violation("stored-block-differs", fmt.Sprintf("%s: the hash index returns for %s a block that differs from the delivered one", ctx, bi.label))
+			}
+		}
 		if b.Header.Height >= lastH {
 			c.violation("head-unreachable", fmt.Sprintf("%s: heights do not decrease along the parent path at %s", ctx, c.labelOfHash(h.Bytes())))
 			break
@@ -792,6 +862,14 @@ func (c *child) checkInv(ctx string) {
 				}
 			}
 		}
+	}
+	c.checkRetained(ctx)
+	c.retain("TopBlock", chain.TopBlock())
+	if qb := chain.QueryBlock(head.Height); qb != nil {
+		c.retain("QueryBlock", qb.Header)
+	}
+	if hh := chain.QueryBlockHeaderByHeight(head.Height, true); hh != nil {
+		c.retain("QueryBlockHeaderByHeight", hh)
 	}
 	if !core.VerifC05StateOpens(head.StateTree) {
 		c.violation("state-root-missing", ctx+": the head's state root cannot be opened")
@@ -982,6 +1060,47 @@ func (c *child) run(sc scenario) {
 			continue // nothing can run between death and restart
 		}
 		switch f[0] {
+		case "cfg":
+			if f[1] == "p008" && f[2] == "0" {
+				common.LocalChainConfig.Proposal008Block = 1 << 62
+			}
+			c.emit("cfg "+f[1]+" "+f[2], "ok")
+		case "par":
+			// concurrency (evidence, not proof): deliver the listed blocks from several goroutines while a reader queries
+			labels := strings.Split(f[1], ",")
+			var wg sync.WaitGroup
+			stop := make(chan struct{})
+			readerDone := make(chan struct{})
+			go func() {
+				defer close(readerDone)
+				for {
+					select {
+					case <-stop:
+						return
+					default:
+						for hh := uint64(0); hh <= c.maxH; hh++ {
+							core.GetBlockChain().QueryBlock(hh)
+						}
+					}
+				}
+			}()
+			for _, l := range labels {
+				bi := c.blocks[l]
+				if bi == nil {
+					continue
+				}
+				wg.Add(1)
+				go func(b *types.Block) {
+					defer wg.Done()
+					defer func() { recover() }()
+					core.GetBlockChain().AddBlockOnChain(copyBlock(b))
+				}(bi.block)
+			}
+			wg.Wait()
+			close(stop)
+			<-readerDone
+			c.emit("par "+f[1], "done")
+			c.checkInv("after concurrent delivery of " + f[1])
 		case "tx":
 			tx := &types.Transaction{Source: fundedA, Target: "0x42c8c9b13fc0573d18028b3398a887c4297ff646", Type: types.TransactionTypeOperatorEvent,
 				Time: "2024-04-22", Data: f[1], Nonce: uint64(len(c.txs) + 1), ChainId: "9500"}
@@ -1066,7 +1185,15 @@ func (c *child) run(sc scenario) {
 			old := core.VerifC05Head().Hash
 			// deliver a copy, the way a block arrives from the network (own header object)
 			cp := copyBlock(bi.block)
+			if bi.lastCopy != nil && len(line)%2 == 0 {
+				cp = bi.lastCopy // history phase: the very same object is delivered again
+			}
+			bi.lastCopy = cp
+			argBefore, _ := types.MarshalBlockHeader(cp.Header)
 			res, toks, fired := c.guarded(armed, k, sub, func() string { return resName(core.GetBlockChain().AddBlockOnChain(cp)) })
+			if argAfter, err := types.MarshalBlockHeader(cp.Header); err != nil || !bytes.Equal(argBefore, argAfter) {
+				c.violation("argument-mutated", "add "+f[1]+": AddBlockOnChain changed the header of the block it was given")
+			}
 			if fired {
 				inState := 0
 				if sub > 0 && len(toks) > 0 && toks[len(toks)-1] == "st" {
@@ -1163,7 +1290,7 @@ func runChild(a map[string]string) {
 		panic(err)
 	}
 	c := &child{out: out, blocks: map[string]*blockInfo{}, byHash: map[common.Hash]*blockInfo{}, txs: map[string]*types.Transaction{},
-		txByH: map[common.Hash]string{}, monitor: true}
+		txByH: map[common.Hash]string{}, monitor: true, violPath: a["viol"]}
 	c.run(sc)
 	out.Close()
 	cr := childResult{Viol: c.viol, Kinds: out.Kinds, Res: out.Results, N: out.N}
@@ -1207,14 +1334,10 @@ func main() {
 		}
 		scs = []scenario{{name: "replay", lines: strings.Split(string(raw), "\n")}}
 	} else {
-		n := hx.ArgInt(a, "n", 40)
-		for i := 0; i < n; i++ {
-			scs = append(scs, genScenario(r.Fork(), fmt.Sprintf("gen%d", i), thorough))
-		}
 		nx := hx.ArgInt(a, "exhaustive", 0)
 		for i := 0; i < nx; i++ {
 			rr := r.Fork()
-			base := genScenario(rr, fmt.Sprintf("ex%d", i), false)
+			base := genScenario(rr, fmt.Sprintf("ex%d", i), false, false)
 			// strip crashes from the base, keep it small
 			var lines []string
 			adds := 0
@@ -1235,6 +1358,10 @@ func main() {
 			}
 			base.lines = lines
 			scs = append(scs, crashVariants(base, hx.ArgInt(a, "maxk", 24))...)
+		}
+		n := hx.ArgInt(a, "n", 40)
+		for i := 0; i < n; i++ {
+			scs = append(scs, genScenario(r.Fork(), fmt.Sprintf("gen%d", i), thorough, mode == "search"))
 		}
 	}
 	workers := hx.ArgInt(a, "workers", 12)
@@ -1257,9 +1384,9 @@ func main() {
 				os.MkdirAll(d, 0755)
 				scn := filepath.Join(d, "scn.txt")
 				ioutil.WriteFile(scn, []byte(strings.Join(j.sc.lines, "\n")), 0644)
-				cctx, cancel := context.WithTimeout(context.Background(), 30*time.Second)
+				cctx, cancel := context.WithTimeout(context.Background(), 120*time.Second)
 				cmd := exec.CommandContext(cctx, self, "child=1", "scn="+scn, "name="+j.sc.name, "ops="+filepath.Join(d, "ops"), "obs="+filepath.Join(d, "obs"),
-					"result="+filepath.Join(d, "result"))
+					"result="+filepath.Join(d, "result"), "viol="+filepath.Join(d, "viol"))
 				cmd.Dir = d
 				cmd.Env = append(os.Environ(), "GOMAXPROCS=2")
 				outb, err := cmd.CombinedOutput()
@@ -1273,6 +1400,14 @@ func main() {
 				}
 				if raw, err := ioutil.ReadFile(filepath.Join(d, "result")); err == nil {
 					json.Unmarshal(raw, &results[j.i])
+				} else if raw, err := ioutil.ReadFile(filepath.Join(d, "viol")); err == nil {
+					// the child did not finish: take what it flushed
+					for _, l := range strings.Split(string(raw), "\n") {
+						var v map[string]string
+						if json.Unmarshal([]byte(l), &v) == nil && v != nil {
+							results[j.i].Viol = append(results[j.i].Viol, v)
+						}
+					}
 				}
 				// keep ops/obs, drop the stores
 				os.RemoveAll(filepath.Join(d, "storage0"))
